@@ -725,3 +725,92 @@ def node_line_(nd):
         return nd[-3] if isinstance(nd[-3], int) else 0
     except Exception:
         return 0
+
+
+def rule_name_table_matches_codes(ctx):
+    """NAMECODE (C19): a tool that turns an option word into a type code by its position in a table of words
+    (`types[] = {"FP32", "FP64", "INT32", ..}`, the matching index stored as the code) relies on the table being in the
+    order of the codes.  Every word of such a table that has a like-named code constant in the same file (`"INT8"` and
+    INT_8: equal once underscores are dropped) sits at the index equal to that constant's value.  Reordered "by width",
+    `-t INT8` selects INT_32 and the imported data set has the wrong type while the tool exits 0."""
+    prog = ctx.prog
+    n = 0
+    by_file = {}
+    for f in prog.funcs:
+        by_file.setdefault(f.file, []).append(f)
+    for file, funcs in sorted(by_file.items()):
+        rel = funcs[0].rel
+        if not rel.startswith(("mfhdf/hdfimport", "mfhdf/hdp", "mfhdf/hdiff", "mfhdf/hrepack", "hdf/util")):
+            continue
+        consts = {}
+        tables = []
+        for f in funcs:
+            for _b, _i, s, x in f.nodes(True):
+                if x[0] == "int" and len(x) > 2 and isinstance(x[2], str) and x[2].isupper() or (x[0] == "int" and len(x) > 2 and isinstance(x[2], str) and "_" in x[2]):
+                    consts.setdefault(x[2].replace("_", "").upper(), set()).add((x[2], x[1]))
+                if x[0] == "decl":
+                    for d in x[1]:
+                        init = d[2]
+                        if init is not None and kind(init) == "init" and len(init[2]) >= 2 and all(kind(e) == "str" for e in init[2]):
+                            tables.append((f, d[0], [e[1] for e in init[2]], s.get("l", f.line)))
+        for f, name, words, line in tables:
+            matched = [(i, w, consts[w.replace("_", "").upper()]) for i, w in enumerate(words) if w.replace("_", "").upper() in consts and len(consts[w.replace("_", "").upper()]) == 1]
+            if len(matched) < 2:
+                continue
+            n += 1
+            key = "NAMECODE:%s:%s" % (f.name, name)
+            bad = [(i, w, list(c)[0]) for i, w, c in matched if list(c)[0][1] != i]
+            if bad:
+                i, w, (cn, cv) = bad[0]
+                ctx.violated("NAMECODE", key, f.where(line), "`%s[%d]` is \"%s\" but the code %s is %d: the word selects the code of whatever stands at its index" % (name, i, w, cn, cv))
+            else:
+                ctx.holds("NAMECODE", key, f.where(line), "the %d words of `%s` that have a like-named code constant stand at that constant's value" % (len(matched), name), nontrivial=True)
+    ctx.floor("NAMECODE", 1, n, "(word tables whose index is a code)")
+    return n
+
+
+def rule_lone_vdata_listed(ctx):
+    """LONEVS (C19): hdiff sees the attributes of Vdatas and Vgroups only as the lone Vdatas of class Attr0.0 that store them, so
+    its object list has to keep lone Vdatas that *have* a class.  In the routine that lists a Vdata (it is told `is_lone` and
+    ends in dtable_add), a return that skips the table entry for a reserved class is reachable only for a Vdata with an empty
+    class (`class[0] == '\\0'`, where no reserved class can match).  The same test turned round drops every attribute Vdata
+    from the comparison and two files that differ in one attribute value compare equal."""
+    from .codec import ast_walk
+    from .facts import calls_in
+    prog = ctx.prog
+    n = 0
+    for f in prog.funcs:
+        ast = f.raw.get("ast")
+        if not ast or not f.rel.endswith("mfhdf/hdiff/hdiff_list.c"):
+            continue
+        params = {(p[0] if isinstance(p, (list, tuple)) else p.get("name")) for p in f.params}
+        if "is_lone" not in params or not any(c[1] == "dtable_add" for _b, _i, _s, c in f.calls()):
+            continue
+        skips = []
+        state = {"added": False}
+
+        def vis(nd, st):
+            if nd[0] in ("s", "if") and nd[1] is not None and any(c[1] == "dtable_add" for c in calls_in(nd[1], True)):
+                state["added"] = True
+            if nd[0] == "s" and kind(nd[1]) == "ret" and not state["added"]:
+                conds = [a[1] for a in st if a[0] == "if" and a[1] is not None]
+                if any(any(c[1] == "is_reserved" for c in calls_in(cnd, True)) for cnd in conds):
+                    skips.append((nd, conds))
+            return True
+
+        ast_walk(ast, vis)
+        for k, (nd, conds) in enumerate(skips, 1):
+            n += 1
+            key = "LONEVS:%s#%d" % (f.name, k)
+            line = nd[-3] if isinstance(nd[-3], int) else f.line
+            empty_only = False
+            for cnd in conds:
+                for x in walk(cnd, True):
+                    if x[0] == "bin" and x[1] == "==" and kind(strip(x[2])) == "idx" and is_int(strip(x[2])[2], 0) and is_int(x[3], 0):
+                        empty_only = True
+            if empty_only:
+                ctx.holds("LONEVS", key, f.where(line), "the reserved-class skip is reachable only for a Vdata whose class is empty: every Vdata with a class is listed", nontrivial=True)
+            else:
+                ctx.violated("LONEVS", key, f.where(line), "a lone Vdata of a reserved class is left out of hdiff's object list: the Attr0.0 Vdatas that carry Vdata and Vgroup attributes are never compared")
+    ctx.floor("LONEVS", 1, n, "(reserved-class skips in hdiff's Vdata listing)")
+    return n
